@@ -93,6 +93,9 @@ PROPS["C02"] = {
         H("c02_utf8::c02_acc_seq4", bounds="every sequence of 4 bytes (2^32) from default()"),
         H("c02_utf8::c02_acc_resync", bounds="arbitrary state under acc_inv x every char (all scalar values)", exhaustive=True),
         H("c02_utf8::c02_decoder_char_wf", bounds="arbitrary decoder state x every byte", exhaustive=True),
+        # back-end cross-check: the unbounded kernels decided again with MiniSat instead of CaDiCaL
+        H("c02_utf8::c02_acc_step", tier="thorough", solver="minisat", bounds="same query, SAT solver MiniSat", exhaustive=True),
+        H("c02_utf8::c02_acc_seq4", tier="thorough", solver="minisat", bounds="same query, SAT solver MiniSat"),
         H("c02_utf8::c02_acc_step_twin", kind="twin"),
     ],
 }
@@ -107,6 +110,7 @@ PROPS["C04"] = {
         H("c04_decoder::c04_terminator_count", tier="quick", bounds="every sequence of 5 bytes over {CR, LF}"),
         H("c04_decoder::c04_seq_from_new", tier="thorough", cfg=["vp_thorough"], timeout=3000, bounds="every sequence of 7 bytes from new()"),
         H("c04_decoder::c04_terminator_count", tier="thorough", cfg=["vp_thorough"], bounds="every sequence of 7 bytes over {CR, LF}"),
+        H("c04_decoder::c04_decoder_step", tier="thorough", solver="minisat", bounds="same query, SAT solver MiniSat", exhaustive=True),
         H("c04_decoder::c04_decoder_step_twin", kind="twin"),
     ],
 }
@@ -141,6 +145,8 @@ PROPS["C17"] = {
         H("c17_scalars::c17_short_option", bounds="every scalar value other than '-' as a short option", exhaustive=True),
         H("c17_scalars::c17_history_recall", bounds="every scalar value pushed to a 6-byte history and recalled", exhaustive=True),
         H("c17_scalars::c17_error_line", bounds="every scalar value as the offending short option in the `error:` line", exhaustive=True, timeout=900, mem=4),
+        H("c17_scalars::c17_encode", tier="thorough", solver="minisat", bounds="same query, SAT solver MiniSat", exhaustive=True),
+        H("c17_scalars::c17_pop_front", tier="thorough", solver="minisat", bounds="same query, SAT solver MiniSat", exhaustive=True),
         H("c17_scalars::c17_encode_twin", kind="twin"),
     ],
 }
